@@ -395,6 +395,7 @@ def main():
         todo = []
         for c in comps.values():
             gs = [g for g in c.groups if prop in g.properties and (not a.group or g.name in a.group)]
+            static_only = gs and all(g.native == 'static_facts' for g in gs)
             if not gs:
                 continue
             try:
@@ -407,6 +408,8 @@ def main():
             if metas[c.name]['missing_contracts']:
                 infra.append('%s: contracts without a matching extracted function/loop (renamed or removed?): %s' % (c.name, ', '.join(metas[c.name]['missing_contracts'])))
             for g in gs:
+                if g.native == 'static_facts':
+                    continue   # evaluated below from the extraction meta data
                 if g.tier == 'thorough' and a.tier != 'thorough' and not a.group:
                     deferred.append(g.name)
                     continue
@@ -433,6 +436,28 @@ def main():
             for c in comps.values():
                 if c.name in metas:
                     metas[c.name]['support_groups'] = sorted(support)
+        # static facts required by the specs (storage duration, deleted copy operations): pseudo-obligations
+        for c in comps.values():
+            m = metas.get(c.name)
+            reqs = [r for r in getattr(c, 'static_reqs', []) if prop in r[2]]
+            if not reqs or m is None or not m.get('cfile'):
+                continue
+            obs = []
+            for kind, name, props in reqs:
+                tags = list(props) + ['static.' + kind]
+                if kind == 'thread_local':
+                    st = m.get('storage', {}).get(name)
+                    ok = st == 'thread_local'
+                    desc = '%s %s has thread storage duration (found: %s)' % (''.join('[%s]' % t for t in tags), name, st or 'no such object')
+                else:
+                    dels = [x for x in m.get('deleted', []) if x.startswith(name + '::')]
+                    ok = any('(const' in x and '&)' in x and '::operator=' not in x for x in dels) and any('::operator=' in x and '(const' in x for x in dels)
+                    desc = '%s %s is not copyable: copy constructor and copy assignment are deleted (found deleted: %s)' % (''.join('[%s]' % t for t in tags), name, '; '.join(dels) or 'none')
+                obs.append({'name': 'static.%s.%s' % (kind, name), 'description': desc, 'status': 'SUCCESS' if ok else 'FAILURE', 'tags': tags,
+                            'function': name, 'line': None, 'file': os.path.basename(c.source)})
+            obs.append({'name': 'static.vacuity', 'description': '[VACUITY] static facts are evaluated', 'status': 'FAILURE', 'tags': ['VACUITY'], 'function': None, 'line': None, 'file': ''})
+            results.append({'group': '%s.static_facts' % c.name, 'component': c.name, 'enforce': None, 'replace': [], 'level': 'proof', 'backend': 'clang-ast',
+                            'obligations': obs, 'infra': None, 'solver_s': 0.0, 'secondary': False})
         if not todo and not infra:
             infra.append('no obligation group is registered for %s' % prop)
         with concurrent.futures.ThreadPoolExecutor(max_workers=int(os.environ.get('VERIF_JOBS', '16'))) as ex:
